@@ -925,9 +925,9 @@ func sigOf(cs Case, step int, p problem) string {
 	op := cs.Ops[step]
 	feat := "after=" + op.Kind
 	if op.Kind == "delete" {
-		feat += "/pred=" + op.Pred.kind() + "/range=" + op.RK
+		feat += "/pred=" + op.Pred.kind()
 	}
-	return vlib.JoinSig("history", p.clause, feat, "hist="+shape(cs.Ops[:step+1]), "layout="+cs.DS.Mode)
+	return vlib.JoinSig("history", p.clause, feat, "layout="+cs.DS.Mode)
 }
 
 func capN(n, c int) int {
